@@ -83,8 +83,9 @@ pub fn exec(line: &str, model: &mut Model) -> Option<Exec> {
             } else {
                 (bp7::crc::CASTAGNOLI.checksum(&d) as u64, cborx::crc32c(&d) as u64)
             };
-            // the model prints its own value and the catalogue-parameter reference value
-            let mut e = Exec::new(format!("ok {} {}", lib, lib));
+            // the model prints its bit-serial value, the catalogue-parameter reference value and
+            // the value of its model of the crc crate's table-driven algorithm
+            let mut e = Exec::new(format!("ok {} {} {}", lib, lib, lib));
             if lib != ind { e.oracle_fail = Some(format!("library {} = {:#x}, independent bitwise CRC = {:#x}", t[0], lib, ind)); }
             e.nontrivial = d.len() > 0;
             Some(e)
